@@ -30,12 +30,12 @@ worker() {
     i=$((i+1)); [ $((i % jobs)) -eq $w ] || continue
     log=$root/log.$w
     if [ "$m" = CANARY ]; then
-      GOVC_REPO=$wt GOVC_OUT=$root/out$w runcheck $p -timeout ${SELFTEST_TIMEOUT:-10} -no-evidence -known /dev/null > $log 2>&1; rc=$?
+      GOVC_REPO=$wt GOVC_OUT=$root/out$w runcheck $p -timeout ${SELFTEST_TIMEOUT:-15} -no-evidence -known /dev/null > $log 2>&1; rc=$?
       if [ $rc -eq 1 ]; then echo "caught   canary: known findings of $p are reported as violations when not listed"; else echo "MISSED   canary for $p (exit $rc)"; fi
       continue
     fi
     git -C $wt apply "/verif/$m" || { echo "MUTANT-DOES-NOT-APPLY $m"; continue; }
-    GOVC_REPO=$wt GOVC_OUT=$root/out$w runcheck $p -timeout ${SELFTEST_TIMEOUT:-10} -no-evidence > $log 2>&1; rc=$?
+    GOVC_REPO=$wt GOVC_OUT=$root/out$w runcheck $p -timeout ${SELFTEST_TIMEOUT:-15} -no-evidence > $log 2>&1; rc=$?
     git -C $wt checkout -q -- .
     n=$(grep -c '^VIOLATION' $log)
     first=$(grep -m1 'FAILED' $log | awk '{print $NF}')
@@ -49,7 +49,7 @@ worker() {
 }
 w=0; while [ $w -lt $jobs ]; do worker $w > $root/res.$w & w=$((w+1)); done; wait
 mkdir -p out; cat $root/res.* | sort -k2 > $root/all; cat $root/all
-if [ -z "$*" ]; then cp $root/all out/selftest.log; else grep -v -F -f /dev/null out/selftest.log 2>/dev/null | while read l; do keep=1; for p in $props; do case "$l" in *"mutants/$p/"*|*"of $p are"*|*"for $p "*) keep=0;; esac; done; [ $keep -eq 1 ] && echo "$l"; done > $root/old; cat $root/old $root/all | sort -k2 > out/selftest.log; fi
+if [ -z "$*" ]; then cp $root/all out/selftest.log; else grep -v -F -f /dev/null out/selftest.log 2>/dev/null | while read l; do keep=1; for p in $props; do case "$l" in *"mutants/$p/"*|*"refactorings/$p/"*|*"of $p are"*|*"for $p "*) keep=0;; esac; done; [ $keep -eq 1 ] && echo "$l"; done > $root/old; cat $root/old $root/all | sort -k2 > out/selftest.log; fi
 fail=0; grep -q "^MISSED\|^MUTANT-DOES-NOT-APPLY\|^FALSE-ALARM" $root/all && fail=1
 total=$(grep -c "" $list); got=$(grep -c "" $root/all); [ "$total" -ne "$got" ] && { echo "TOOL-ERROR: $got results for $total entries"; fail=1; }
 rm -rf $root; git -C /repo worktree prune
